@@ -213,7 +213,16 @@ func CheckMain(id, tier string) int {
 	wg.Wait()
 
 	if chk.Finish != nil {
-		m.Infra = append(m.Infra, chk.Finish(m)...)
+		v := chk.Finish(m)
+		if m.DeadlineHit {
+			// the time budget ended the enumeration early (a loaded machine): the vacuity guards judge a
+			// completed run only; what was not reached is reported as a cap (exhaustive=false), not as a failure
+			for _, s := range v {
+				m.CapsHit = append(m.CapsHit, "not judged, the deadline ended the run early: "+s)
+			}
+		} else {
+			m.Infra = append(m.Infra, v...)
+		}
 	}
 	return m.report(time.Since(start).Seconds())
 }
